@@ -20,6 +20,9 @@ processors, unescape, the serializer and `finishX` on the resulting tree.
 import MdVerif.Lemmas.RenderXNl
 import MdVerif.Lemmas.RenderXAdm
 import MdVerif.Lemmas.RenderXDef
+import MdVerif.Lemmas.RenderXAbbr
+import MdVerif.Lemmas.RenderXFn
+import MdVerif.Lemmas.RenderXCombo
 
 namespace MdVerif.RenderX
 open Py PipelineX
@@ -230,5 +233,201 @@ example : convertX { defList := true } {} "term\n:   definition".toList =
 /-- without the extension: a paragraph -/
 example : convertX {} {} "term\n:   definition".toList = .ok "<p>term\n:   definition</p>".toList := by
   decide +kernel
+
+/-! ### abbr -/
+
+/-- a word: non-empty, ASCII letters and digits only -/
+def IsWord (w : Str) : Prop := w ≠ [] ∧ ∀ c ∈ w, isAsciiAlnum c = true
+
+instance (w : Str) : Decidable (IsWord w) := by unfold IsWord; infer_instance
+
+/-- the source: `*[KEY]: Title`, an empty line, and a paragraph of words separated by single spaces -/
+example : abbrSrc "HTML".toList "Hyper Text".toList ["The".toList, "HTML".toList, "spec".toList] =
+    "*[HTML]: Hyper Text\n\nThe HTML spec".toList := by decide
+
+/-- the rendering prescribed for the paragraph: every word that IS the key is wrapped, every other word — also one
+    that merely contains the key, like `HTML5` or `XHTML` — is left as it is -/
+example : abbrWords "HTML".toList "[abbr]".toList ["The".toList, "HTML".toList, "HTML5".toList, "XHTML".toList, "HTML".toList] =
+    "The [abbr] HTML5 XHTML [abbr]".toList := by decide
+example : abbrHtml "HTML".toList "Hyper Text".toList = "<abbr title=\"Hyper Text\">HTML</abbr>".toList := by decide
+
+/-- **abbr.**  After the definition `*[KEY]: Title`, a paragraph of words renders with `<abbr title="Title">KEY</abbr>`
+    at every whole-word occurrence of the key and nowhere else (`abbrWords`): for every key word, every plain title
+    other than the word `title` itself (see the counterexample below) and every non-empty list of words. -/
+theorem C16_abbr_renders (cfg : Pipeline.Cfg) (hbl : cfg.blockLevel = TreeProc.defaultBlockLevel)
+    (htab : 0 < cfg.tab) (key title : Str) (ws : List Str) (hk : IsWord key) (ht : PlainLine title)
+    (hT : title ≠ "title".toList) (hne : ws ≠ []) (hws : ∀ w ∈ ws, IsWord w) :
+    convertX { abbr := true } cfg (abbrSrc key title ws) =
+      .ok ("<p>".toList ++ abbrWords key (abbrHtml key title) ws ++ "</p>".toList) :=
+  convertX_abbr cfg hbl htab key title ws ⟨hk.1, hk.2⟩ (plainLine_facts ht) (fun e => hT e.symm) hne
+    (fun w hw => ⟨(hws w hw).1, (hws w hw).2⟩)
+
+example : IsWord "HTML".toList ∧ IsWord "W3C".toList ∧ ¬ IsWord "a b".toList ∧ ¬ IsWord "".toList := by decide
+
+/-- an instance through the theorem … -/
+example : convertX { abbr := true } {} "*[HTML]: Hyper Text\n\nThe HTML spec HTML5 and XHTML by HTML".toList =
+    .ok ("<p>The <abbr title=\"Hyper Text\">HTML</abbr> spec HTML5 and XHTML by " ++
+      "<abbr title=\"Hyper Text\">HTML</abbr></p>").toList :=
+  C16_abbr_renders {} rfl (by decide) "HTML".toList "Hyper Text".toList
+    ["The".toList, "HTML".toList, "spec".toList, "HTML5".toList, "and".toList, "XHTML".toList, "by".toList, "HTML".toList]
+    (by decide) (by decide) (by decide) (by decide) (by decide)
+
+/-- … and by evaluation of the model -/
+example : convertX { abbr := true } {} "*[HTML]: Hyper Text\n\nThe HTML spec".toList =
+    .ok "<p>The <abbr title=\"Hyper Text\">HTML</abbr> spec</p>".toList := by decide +kernel
+
+/-- the excluded title: in the `html` output format the serializer minimises an attribute whose value equals its
+    name, so the title `title` is written as the bare attribute `title` (whose value, for an HTML reader, is empty);
+    the `xhtml` format keeps it -/
+example : convertX { abbr := true } { fmt := .html } "*[HTML]: title\n\nThe HTML spec".toList =
+    .ok "<p>The <abbr title>HTML</abbr> spec</p>".toList := by decide +kernel
+example : convertX { abbr := true } {} "*[HTML]: title\n\nThe HTML spec".toList =
+    .ok "<p>The <abbr title=\"title\">HTML</abbr> spec</p>".toList := by decide +kernel
+
+/-! ### footnotes -/
+
+/-- the source: the paragraph text with the reference `[^id]` at its end, an empty line, the definition
+    `[^id]: note` -/
+example : fnSrc "text".toList "1".toList "note".toList = "text[^1]\n\n[^1]: note".toList := by decide
+example : fnSrc "See the spec".toList "w3c".toList "World Wide Web".toList =
+    "See the spec[^w3c]\n\n[^w3c]: World Wide Web".toList := by decide
+
+/-- the documented structure (`fnRaw fmt t id note "&#160;" "&#8617;"`): the paragraph with the `sup` / `a.footnote-ref`
+    reference numbered 1, then `div.footnote` with `hr`, `ol`, `li#fn:id`, the note, a no-break space and the back-link -/
+example : fnRaw .xhtml "text".toList "1".toList "note".toList "&#160;".toList "&#8617;".toList =
+    ("<p>text<sup id=\"fnref:1\"><a class=\"footnote-ref\" href=\"#fn:1\">1</a></sup></p>\n" ++
+     "<div class=\"footnote\">\n<hr />\n<ol>\n<li id=\"fn:1\">\n" ++
+     "<p>note&#160;<a class=\"footnote-backref\" href=\"#fnref:1\" " ++
+     "title=\"Jump back to footnote 1 in the text\">&#8617;</a></p>\n</li>\n</ol>\n</div>").toList := by
+  decide +kernel
+example : hrTag .xhtml = "<hr />".toList ∧ hrTag .html = "<hr>".toList := ⟨rfl, rfl⟩
+
+/-- **footnotes.**  A paragraph of plain text that ends with a reference `[^id]`, followed by the definition
+    `[^id]: note`, converts to the documented structure: the reference becomes
+    `<sup id="fnref:id"><a class="footnote-ref" href="#fn:id">1</a></sup>`, and the document ends with
+    `<div class="footnote">`, a rule, and an ordered list whose item `li#fn:id` holds the note, a no-break space and
+    the back-link to `#fnref:id` — for every plain text, every label that is a word, every plain note; both formats. -/
+theorem C16_footnote_renders (cfg : Pipeline.Cfg) (hbl : cfg.blockLevel = TreeProc.defaultBlockLevel)
+    (htab : 0 < cfg.tab) (t id note : Str) (ht : PlainLine t) (hid : IsWord id) (hn : PlainLine note) :
+    convertX { footnotes := true } cfg (fnSrc t id note) =
+      .ok (fnRaw cfg.fmt t id note "&#160;".toList "&#8617;".toList) :=
+  convertX_fn cfg hbl htab t id note (plainLine_facts ht) ⟨hid.1, hid.2⟩ (plainLine_facts hn)
+
+/-- **footnotes, the instance of the documentation**: `text[^1]` + `[^1]: note`, xhtml, spelled out. -/
+theorem C16_footnote_one (t note : Str) (ht : PlainLine t) (hn : PlainLine note) :
+    convertX { footnotes := true } {} (t ++ "[^1]\n\n[^1]: ".toList ++ note) =
+      .ok ("<p>".toList ++ t ++
+        ("<sup id=\"fnref:1\"><a class=\"footnote-ref\" href=\"#fn:1\">1</a></sup></p>\n" ++
+         "<div class=\"footnote\">\n<hr />\n<ol>\n<li id=\"fn:1\">\n<p>").toList ++ note ++
+        ("&#160;<a class=\"footnote-backref\" href=\"#fnref:1\" title=\"Jump back to footnote 1 in the text\">" ++
+         "&#8617;</a></p>\n</li>\n</ol>\n</div>").toList) := by
+  have h := C16_footnote_renders {} rfl (by decide) t "1".toList note ht (by decide) hn
+  have e : fnSrc t "1".toList note = t ++ "[^1]\n\n[^1]: ".toList ++ note := by
+    unfold fnSrc DocParse.joinChunks fnLine1 fnLine2 fnRefSrc
+    simp only [String.reduceToList, List.cons_append, List.append_assoc, List.nil_append, DocParse.joinChunks]
+  rw [e] at h
+  rw [h]
+  unfold fnRaw fnA fnB fnC supHtml
+  simp only [hrTag, String.reduceAppend, String.reduceToList, List.cons_append, List.append_assoc, List.nil_append]
+
+/-- an instance through the theorem … -/
+example : convertX { footnotes := true } { fmt := .html } "See the spec[^w3c]\n\n[^w3c]: World Wide Web".toList =
+    .ok (fnRaw .html "See the spec".toList "w3c".toList "World Wide Web".toList "&#160;".toList "&#8617;".toList) :=
+  C16_footnote_renders { fmt := .html } rfl (by decide) "See the spec".toList "w3c".toList "World Wide Web".toList
+    (by decide) (by decide) (by decide)
+
+/-- … and by evaluation of the model -/
+example : convertX { footnotes := true } {} "text[^1]\n\n[^1]: note".toList =
+    .ok (fnRaw .xhtml "text".toList "1".toList "note".toList "&#160;".toList "&#8617;".toList) := by decide +kernel
+
+/-- without the extension `[^1]: note` is a link reference definition and `[^1]` a reference link -/
+example : convertX {} {} "text[^1]\n\n[^1]: note".toList = .ok "<p>text<a href=\"note\">^1</a></p>".toList := by
+  decide +kernel
+
+/-! ### combinations: the same renderings with other extensions enabled as well -/
+
+/-- the extensions outside the scope of this file (fenced_code, tables, attr_list, toc: `Props/C16Render*.lean`,
+    `C16AttrList`, `C17`) are off -/
+def OthersOff (x : Exts) : Prop := x.fencedCode = false ∧ x.tables = false ∧ x.attrList = false ∧ x.toc = false
+
+instance (x : Exts) : Decidable (OthersOff x) := by unfold OthersOff; infer_instance
+
+/-- **nl2br composes.**  The rendering of `C16_nl2br_renders` is the same with ANY combination of admonition,
+    def_list, abbr, footnotes, sane_lists and wikilinks enabled together with nl2br. -/
+theorem C16_nl2br_composes (x : Exts) (hx : x.nl2br = true) (ho : OthersOff x) (cfg : Pipeline.Cfg)
+    (hbl : cfg.blockLevel = TreeProc.defaultBlockLevel) (htab : 0 < cfg.tab) (l0 : Str) (r : List Str)
+    (h : ∀ l ∈ l0 :: r, PlainLine l) :
+    convertX x cfg (joinLines (l0 :: r)) = .ok ("<p>".toList ++ l0 ++ brOut cfg.fmt r ++ "</p>".toList) :=
+  convertX_nl2br_with x hx ho.1 ho.2.1 ho.2.2.1 ho.2.2.2 cfg hbl htab l0 r (fun l hl => plainLine_facts (h l hl))
+
+/-- **admonition composes.**  The rendering of `C16_admonition_renders` is the same with ANY combination of def_list,
+    abbr, footnotes, sane_lists and wikilinks enabled together with admonition (nl2br off: it would turn the line
+    feeds of the body into `br`s). -/
+theorem C16_admonition_composes (x : Exts) (hx : x.admonition = true) (hnl : x.nl2br = false) (ho : OthersOff x)
+    (cfg : Pipeline.Cfg) (hbl : cfg.blockLevel = TreeProc.defaultBlockLevel) (htab : 0 < cfg.tab)
+    (kl title b0 : Str) (br : List Str) (hk : LowerLine kl) (ht : PlainLine title) (hb : ∀ l ∈ b0 :: br, PlainLine l) :
+    convertX x cfg (admSrc cfg.tab kl (some title) (b0 :: br)) =
+      .ok ("<div class=\"admonition ".toList ++ kl ++ "\">\n".toList ++
+        ("<p class=\"admonition-title\">".toList ++ title ++ "</p>\n".toList) ++
+        "<p>".toList ++ joinLines (b0 :: br) ++ "</p>\n</div>".toList) := by
+  have hkf := lowerLine_facts hk
+  have htf := plainLine_facts ht
+  obtain ⟨a, t, rfl⟩ : ∃ a t, title = a :: t := by
+    cases title with
+    | nil => exact absurd rfl htf.ne
+    | cons a t => exact ⟨a, t, rfl⟩
+  have := convertX_adm_with x hx hnl ho.1 ho.2.1 ho.2.2.1 ho.2.2.2 cfg hbl htab kl (some (a :: t)) (some (a :: t)) b0 br
+    hkf.toPlainFacts (fun y hy => by cases hy; exact htf.chars) (by simpa using htf.chars)
+    (fun l hl => plainLine_facts (hb l hl)) (admClassTitle_lower kl hkf (some (a :: t)))
+  rw [this, admOut_some]
+
+/-- **def_list composes.**  The rendering of `C16_deflist_renders` is the same with ANY combination of admonition,
+    abbr, footnotes, sane_lists and wikilinks enabled together with def_list (nl2br off). -/
+theorem C16_deflist_composes (x : Exts) (hx : x.defList = true) (hnl : x.nl2br = false) (ho : OthersOff x)
+    (cfg : Pipeline.Cfg) (hbl : cfg.blockLevel = TreeProc.defaultBlockLevel) (htab : 0 < cfg.tab)
+    (t0 : Str) (tr : List Str) (d : Str) (ds : List Str)
+    (ht : ∀ l ∈ t0 :: tr, PlainLine l) (hd : ∀ l ∈ d :: ds, PlainLine l) :
+    convertX x cfg (defSrc (t0 :: tr) (d :: ds)) =
+      .ok ("<dl>\n".toList ++ txtOut "dt" (t0 :: tr) ++ txtOut "dd" (d :: ds) ++ "</dl>".toList) :=
+  convertX_def_with x hx hnl ho.1 ho.2.1 ho.2.2.1 ho.2.2.2 cfg hbl htab t0 tr d ds
+    (fun l hl => plainLine_facts (ht l hl)) (fun l hl => plainLine_facts (hd l hl))
+
+/-- the hypotheses are satisfiable: all seven extensions of this file at once -/
+def allSeven : Exts :=
+  { admonition := true, defList := true, abbr := true, footnotes := true, saneLists := true, nl2br := true,
+    wikilinks := true }
+
+example : OthersOff allSeven ∧ allSeven.nl2br = true := by decide
+
+example : convertX allSeven {} "line one\nline two".toList = .ok "<p>line one<br />\nline two</p>".toList :=
+  C16_nl2br_composes allSeven rfl (by decide) {} rfl (by decide) "line one".toList ["line two".toList] (by decide)
+
+example : convertX { allSeven with nl2br := false } {} "term\n:   definition".toList =
+    .ok "<dl>\n<dt>term</dt>\n<dd>definition</dd>\n</dl>".toList := by decide +kernel
+
+/-- **abbr composes.**  The rendering of `C16_abbr_renders` is the same with ANY combination of admonition, def_list,
+    footnotes, sane_lists, nl2br and wikilinks enabled together with abbr. -/
+theorem C16_abbr_composes (x : Exts) (hx : x.abbr = true) (ho : OthersOff x) (cfg : Pipeline.Cfg)
+    (hbl : cfg.blockLevel = TreeProc.defaultBlockLevel) (htab : 0 < cfg.tab) (key title : Str) (ws : List Str)
+    (hk : IsWord key) (ht : PlainLine title) (hT : title ≠ "title".toList) (hne : ws ≠ []) (hws : ∀ w ∈ ws, IsWord w) :
+    convertX x cfg (abbrSrc key title ws) =
+      .ok ("<p>".toList ++ abbrWords key (abbrHtml key title) ws ++ "</p>".toList) :=
+  convertX_abbr_with x hx ho.1 ho.2.1 ho.2.2.1 ho.2.2.2 cfg hbl htab key title ws ⟨hk.1, hk.2⟩ (plainLine_facts ht)
+    (fun e => hT e.symm) hne (fun w hw => ⟨(hws w hw).1, (hws w hw).2⟩)
+
+/-- **footnotes compose.**  The rendering of `C16_footnote_renders` is the same with ANY combination of admonition,
+    def_list, abbr and sane_lists enabled together with footnotes (nl2br and wikilinks off: they change the pattern
+    table of the inline stage, which this proof follows entry by entry). -/
+theorem C16_footnote_composes (x : Exts) (hx : x.footnotes = true) (hnl : x.nl2br = false) (hwl : x.wikilinks = false)
+    (ho : OthersOff x) (cfg : Pipeline.Cfg) (hbl : cfg.blockLevel = TreeProc.defaultBlockLevel) (htab : 0 < cfg.tab)
+    (t id note : Str) (ht : PlainLine t) (hid : IsWord id) (hn : PlainLine note) :
+    convertX x cfg (fnSrc t id note) = .ok (fnRaw cfg.fmt t id note "&#160;".toList "&#8617;".toList) :=
+  convertX_fn_with x hx hnl hwl ho.1 ho.2.1 ho.2.2.1 ho.2.2.2 cfg hbl htab t id note (plainLine_facts ht) ⟨hid.1, hid.2⟩
+    (plainLine_facts hn)
+
+example : convertX allSeven {} "*[HTML]: Hyper Text\n\nThe HTML spec".toList =
+    .ok "<p>The <abbr title=\"Hyper Text\">HTML</abbr> spec</p>".toList :=
+  C16_abbr_composes allSeven rfl (by decide) {} rfl (by decide) "HTML".toList "Hyper Text".toList
+    ["The".toList, "HTML".toList, "spec".toList] (by decide) (by decide) (by decide) (by decide) (by decide)
 
 end MdVerif.RenderX
